@@ -152,18 +152,8 @@ func (p *Program) newInterp() *interpreter {
 }
 
 func (i *interpreter) resetGlobals() {
-	for _, pkg := range i.prog.AllPackages() {
-		for _, m := range pkg.Members {
-			if v, ok := m.(*ssa.Global); ok {
-				cell := zero(mustDeref(v.Type()))
-				if c, ok := i.globals[v]; ok {
-					*c = cell
-				} else {
-					i.globals[v] = &cell
-				}
-			}
-		}
-	}
+	// globals are (re)created lazily, zero-valued, on first access in each path
+	i.globals = make(map[*ssa.Global]*value, 256)
 }
 
 // RunResult summarises one obligation.
